@@ -316,9 +316,8 @@ def runLoop : Run → Nat → List Bool → Run
   | st, _, [] => st
   | st, i, z :: zs => runLoop (runStep st i z) (i + 1) zs
 
-/-- `_compress_hextets` on the list of hextet texts -/
-def compressHextets (hs : List Str) : List Str :=
-  let st := runLoop {} 0 (hs.map (· == ['0']))
+/-- the second half of `_compress_hextets`: cut the best run out -/
+def compressWith (st : Run) (hs : List Str) : List Str :=
   if st.bestLen > 1 then
     let start := st.bestStart.getD 0
     let stop := start + st.bestLen
@@ -326,6 +325,10 @@ def compressHextets (hs : List Str) : List Str :=
     let hs := hs.take start ++ [[]] ++ hs.drop stop
     if start = 0 then [] :: hs else hs
   else hs
+
+/-- `_compress_hextets` on the list of hextet texts -/
+def compressHextets (hs : List Str) : List Str :=
+  compressWith (runLoop {} 0 (hs.map (· == ['0']))) hs
 
 /-- `str(IPv6Address(n))` -/
 def strV6 (n : Nat) : Str := join [':'] (compressHextets ((hextets n).map toHex))
